@@ -613,7 +613,8 @@ MIN_EVENTS.update({
     "value-judged:wrf": (20000, 120000), "value-judged:euclid": (20000, 120000),
     "value-judged:missing": (5000, 25000), "value-judged:custom-weight-attribute": (250, 1300),
     "symmetry-checked": (50000, 300000), "triangle-checked": (200000, 1400000),
-    "redraw-zero-checked": (15000, 80000), "invariance-checked": (40000, 300000),
+    "redraw-zero-checked": (15000, 80000), "invariance-checked": (40000, 300000), "seedmove-zero-checked": (1200, 12000),
+    "seedmove-start:half-of-the-basal-edge-missing": (80, 800),
     "journal-call-after-edit": (280, 4400),
     "namespace-refusal-checked": (5000, 30000), "namespace-refusal-checked:is_bipartitions_updated=True": (1700, 13000),
     "refusal-with-missing-lengths": (10000, 80000),
@@ -1017,6 +1018,8 @@ def cases(tier, seed):
         yield {"kind": "pool", "i": i, "seed": seed, "tier": tier}
     for i in range(600 if quick else 10000):
         yield {"kind": "journal", "i": i, "seed": seed, "tier": tier}
+    for i in range(400 if quick else 4000):
+        yield {"kind": "seedmove", "i": i, "seed": seed, "tier": tier}
 
 
 def run_case(case, ctx):
@@ -1037,6 +1040,8 @@ def run_case(case, ctx):
             run_journal(ctx, mon, rng, case)
         elif kind == "ns":
             run_ns(ctx, mon, rng, case)
+        elif kind == "seedmove":
+            run_seedmove(ctx, mon, rng, case)
         else:
             raise core.HarnessBug("unknown case kind %r" % kind)
 
@@ -1527,6 +1532,91 @@ def journal_lib_edit(ctx, mon, rng, trees, kind, rooted, alive, force_update=Fal
             ctx.note("journal-ended:library-edit-left-a-tree-outside-the-quantifier:%s" % kind)
             return "ended"
     return label
+
+
+# ---- Z through the library's own seed moving -----------------------------------------------------------------------
+SEEDMOVES = ("reseed_at", "to_outgroup_position", "reroot_at_edge")
+
+
+def run_seedmove(ctx, mon, rng, case):
+    """"unchanged ... for unrooted trees, by moving the seed node": the re-drawing is made by the library itself
+    (reseed_at / to_outgroup_position / reroot_at_edge followed by is_rooted = False, with and without
+    update_bipartitions, one to three moves in a row) on an unrooted tree, and every primary distance between a
+    harness-built twin of the tree as it was and the moved tree must be 0, in both argument orders.  The pool engine
+    only sees re-drawings the harness draws.  Length patterns: complete ones, and 'half of the basal edge missing'
+    (one child edge of a bifurcating seed has no length: the unrooted tree has that edge once, with the other
+    half's length, so no length is missing from the tree that is compared) - the situation in which a move has to
+    merge a length into an edge without one.  Trees with other missing lengths are left to clause S."""
+    ops = _ops()
+    quick = case.get("tier", ctx.tier) == "quick"
+    n = rng.choice([3, 4, 5, 6, 8]) if quick else rng.choice([3, 4, 5, 6, 8, 12, 20])
+    names = ["T%d" % i for i in range(n)]
+    sp = gen.random_spec(rng, n, p_poly=rng.choice([0, 0, 0.3]), p_unary=0, names=names,
+                         shape=rng.choice([None, None, "caterpillar", "balanced"]))
+    pat = rng.choice(["dyadic", "dyadic", "ints", "zeros"])
+    gen.decorate_lengths(sp, rng, pat, root_length=False)
+    half = None
+    if len(sp[3]) == 2 and rng.random() < 0.6:
+        half = rng.choice(sp[3])
+        half[2] = None
+        ctx.ev("seedmove-start:half-of-the-basal-edge-missing")
+    ns = make_ns(names, rng)
+    twin = build_live(ctx, mon, sp, ns, False, rng, "node-api")
+    t = build_live(ctx, mon, sp, ns, False, rng, rng.choice(["node-api", "node-api", "parser", "copy"]))
+    if rng.random() < 0.4:
+        put_in_state(mon, t, "encode")
+    done = []
+    for _ in range(rng.choice([1, 1, 2, 3])):
+        kind = rng.choice(SEEDMOVES)
+        ub = rng.random() < 0.5
+        try:
+            label = H.LIB_EDITS[kind](t, rng, ub)
+        except core.CaseTimeout:
+            raise
+        except Exception as e:
+            ctx.note("seedmove-ended:library-edit-raised:%s:%s" % (kind, type(e).__name__))    # C03 / C07 judge this
+            return
+        if label is None:
+            continue
+        if kind == "reroot_at_edge":
+            t.is_rooted = False
+        mon.states.structural_edit(t)
+        done.append("%s%s" % (label, ":update_bipartitions" if ub else ""))
+        ctx.ev("seedmove:%s" % done[-1])
+    if not done:
+        return
+    if not H.inside_quantifier(t, names):
+        ctx.note("seedmove-ended:library-edit-left-the-tree-outside-the-quantifier")
+        return
+    det = {"tree": ref.to_newick(sp)[:500], "moves": done, "rooted": False,
+           "moved": ref.to_newick(bridge.extract(t))[:500]}
+    scale = sum(abs(x[2]) for x in ref.preorder(sp) if x[2] is not None) + 1.0
+    for op in PRIMARY:
+        for a, b, order in ((twin, t, "(t, moved)"), (t, twin, "(moved, t)")):
+            r = dcall(ctx, mon, ops[op], a, b)
+            if r["exc"] is not None:
+                if not _usable(r):
+                    continue
+                ctx.violation("%s|refused-between-a-tree-and-its-seed-moved-self|%s" % (FN_OF_KIND[op], done[-1].split(":")[0]),
+                              "%s%s raised %s although no length is missing from either unrooted tree" % (
+                                  FN_OF_KIND[op], order, core.exc_brief(r["exc"])), det)
+                continue
+            if not _usable(r):
+                ctx.ev("relation-skipped-operand-already-flagged")
+                continue
+            ctx.ev("seedmove-zero-checked")
+            v = r["value"]
+            if op == "fpfn":
+                ok = tuple(v) == (0, 0)
+            elif op == "sd":
+                ok = v == 0
+            else:
+                ok = abs(v) <= 1e-9 * scale
+            if not ok:
+                ctx.violation("%s|nonzero-between-a-tree-and-its-seed-moved-self|%s%s" % (
+                    FN_OF_KIND[op], done[-1].split(":")[0], "|half-of-the-basal-edge-missing" if half is not None else ""),
+                    "%s%s = %r after %s" % (FN_OF_KIND[op], order, _brief(v), " + ".join(done)), det)
+    ctx.nontrivial(("seedmove", ref.canon(sp) if hasattr(ref, "canon") else ref.to_newick(sp), tuple(done)))
 
 
 # ---- different namespaces ----------------------------------------------------------------------------------------
